@@ -573,7 +573,7 @@ func (f *ownedExchange) GetBlocks(_ context.Context, cids []cid.Cid) (<-chan blo
 }
 
 func (f *ownedExchange) NotifyNewBlocks(context.Context, ...blocks.Block) error { return nil }
-func (f *ownedExchange) Close() error                                          { return nil }
+func (f *ownedExchange) Close() error                                           { return nil }
 
 // c10Gated wraps a Block so that the harness owns two more scheduling points of a fetch:
 //   - regGate: UnmarshalFn(root) - which fetch calls while it registers the request - returns only
@@ -610,8 +610,8 @@ func (g *c10Gated) UnmarshalFn(root *share.AxisRoots) UnmarshalFn {
 }
 
 type c10Fetcher struct {
-	blks    []*c10Gated
-	gated   bool // started with its registration gated and not yet released
+	blks      []*c10Gated
+	gated     bool // started with its registration gated and not yet released
 	reqs      []c10Req
 	ex        *ownedExchange
 	call      *ownedCall
@@ -1003,6 +1003,17 @@ func TestVerifC10_Fetch(t *testing.T) {
 		} else {
 			start(0)
 		}
+		// once every fetcher has been started and has returned, only "idle" stays enabled; rapid gives up
+		// after 100 disabled draws in a row (1 chance in 10^6 per step with eight actions — met once in
+		// 5·10^5 thorough cases), so in that state the other actions are no-ops instead of skips
+		quiet := func() bool {
+			for _, f := range fetchers {
+				if !f.started || !f.finished {
+					return false
+				}
+			}
+			return true
+		}
 		t.Repeat(map[string]func(*rapid.T){
 			"idle": func(*rapid.T) {},
 			"start": func(t *rapid.T) {
@@ -1014,6 +1025,9 @@ func TestVerifC10_Fetch(t *testing.T) {
 						}
 						return
 					}
+				}
+				if quiet() {
+					return
 				}
 				t.Skip("all started")
 			},
@@ -1027,6 +1041,9 @@ func TestVerifC10_Fetch(t *testing.T) {
 						return
 					}
 				}
+				if quiet() {
+					return
+				}
 				t.Skip("all started")
 			},
 			"ungate": func(t *rapid.T) {
@@ -1035,6 +1052,9 @@ func TestVerifC10_Fetch(t *testing.T) {
 						ungate(k)
 						return
 					}
+				}
+				if quiet() {
+					return
 				}
 				t.Skip("nobody is gated")
 			},
@@ -1046,6 +1066,9 @@ func TestVerifC10_Fetch(t *testing.T) {
 					}
 				}
 				if len(live) == 0 {
+					if quiet() {
+						return
+					}
 					t.Skip("nobody waits")
 				}
 				k := live[rapid.IntRange(0, len(live)-1).Draw(t, "fetcher")]
@@ -1071,6 +1094,9 @@ func TestVerifC10_Fetch(t *testing.T) {
 					}
 				}
 				if len(live) == 0 {
+					if quiet() {
+						return
+					}
 					t.Skip("nobody waits")
 				}
 				k := live[rapid.IntRange(0, len(live)-1).Draw(t, "fetcher")]
@@ -1096,6 +1122,9 @@ func TestVerifC10_Fetch(t *testing.T) {
 					}
 				}
 				if len(live) == 0 {
+					if quiet() {
+						return
+					}
 					t.Skip("nobody to finish")
 				}
 				k := live[rapid.IntRange(0, len(live)-1).Draw(t, "fetcher")]
